@@ -15,8 +15,8 @@ CHECKS = {
    "Bounded-exhaustive enumeration: every byte length 0..=F1+3F+16 at the 4608-byte buffer configuration, +-16 windows around each k x packet capacity (k<=4 quick / <=8 thorough; capacities measured from the system-call trace, not assumed) for seven (eleven) fake and kernel-enforced SO_SNDBUF configurations, a serde value grammar of depth 2 plain and padded to packet boundaries, on the os, memfd and in-process builds; each case is a real send/recv on the real kernel compared byte for byte.",
    E2NOTE, "bounded-exhaustive input/configuration enumeration on the real code (E2); blocking cases under the controlled scheduler", "DESIGN.md §4 C01"),
  "C02": ("model_checking",
-   "Stateless model checking of the implementation: every schedule with <=2 deviations (quick; 3 for selected scenarios thorough) of 2-3 sender tasks (cloned handle or own descriptor) x two-message size mixes {small, exactly one packet, 2, 3 packets} x receiver behaviour {blocking, try_recv polling, receiver set, delayed} runs on the real code and kernel under a controlled scheduler; oracle: exactly-once, payload integrity, and order for every pair with return(a)<begin(b) on the logical clock; plus every sequential interleaving of two forked sender processes.",
-   E1NOTE, "controlled-scheduler stateless exploration with iterative deviation (preemption) bounding (E1) + forked-process interleaving enumeration", "DESIGN.md §4 C02"),
+   "Stateless model checking of the implementation: every schedule with <=2 deviations (quick; 3 for selected scenarios thorough) of 2-3 sender tasks (cloned handle or own descriptor) x two-message size mixes {small, exactly one packet, 2, 3 packets} x receiver behaviour {blocking, try_recv polling, receiver set, delayed} runs on the real code and kernel under a controlled scheduler; oracle: exactly-once, payload integrity, and order for every pair with return(a)<begin(b) on the logical clock. Plus every packet-level interleaving of two forked sender processes (gated before each transmission), and an abstract packet-protocol model searched exhaustively (<=3 senders x 2 messages x 3 packets) and bound to the code both ways: every free execution's system-call trace must be a path of the model with matching payload tags, and every model transition is covered by a model path replayed on the implementation in the scheduler's directed mode.",
+   E1NOTE + " A trace that no longer maps onto the packet model prints MODEL-DRIFT and is not a verdict.", "controlled-scheduler stateless exploration with iterative deviation (preemption) bounding (E1) + gated packet-level process interleavings (E2g) + explicit-state packet-protocol model with two-way trace conformance (E3)", "DESIGN.md §3.5, §4 C02"),
  "C07": ("model_checking",
    "Stateless model checking of the implementation: every schedule with <=2 deviations (3 for single-route scenarios, thorough) of registering / sending / dropping tasks against the real router thread of a private RouterProxy: 1-3 routes, callback (with drop guard) and crossbeam-forwarding, 0-2 messages queued before registration and 0-2 after, registered from one or two tasks; oracle: per-route handler log equals that route's sends in order and nothing else, guard dropped exactly once after the last message, forwarding receivers disconnect, no deadlock, no panic on any thread.",
    E1NOTE, "controlled-scheduler stateless exploration with deviation bounding (E1)", "DESIGN.md §4 C07"),
@@ -36,8 +36,8 @@ CHECKS = {
    "Stateless model checking of the implementation: every schedule with <=2 deviations of 0-2 live routes (callback / forwarding, optionally a message in flight) stopped by shutdown() from 1-2 tasks or by dropping the proxy, optionally racing add_route, followed by further sends and a wait for quiescence; oracle: no callback after the stop, every callback dropped exactly once (at shutdown return / at quiescence), forwarding receivers disconnected, late routes never invoked, no panic on any thread, no deadlock.",
    E1NOTE, "controlled-scheduler stateless exploration with deviation bounding (E1)", "DESIGN.md §4 C17"),
  "C03": ("model_checking",
-   "Explicit-state BFS over the reference model's state graph (clone / drop / send / embed sender / embed receiver / three receive variants / drop receiver / move handle to another thread / to a forked process; canonical-state dedup; 3 channels quick, 4 thorough) with every transition replayed from scratch on the real API and every observable result compared, plus non-destructive disconnection probes; and stateless exploration (<=2/3 deviations) of the final drops racing a blocked, timed or polling receive.",
-   E1NOTE + " The model graph is cut at a depth/state bound (reported, exhaustive=false when cut).", "explicit-state model search with full trace conformance replay on the implementation + controlled-scheduler exploration (E1)", "DESIGN.md §4 C03"),
+   "Explicit-state BFS over the reference model's state graph (clone / drop / send / embed sender / embed receiver / three receive variants / drop receiver / move handle to another thread / to a forked process; canonical-state dedup; quick: every history up to depth 4 on 3 channels and up to depth 7 on 2 channels; thorough: depth 6 / 3 channels, depth 5 / 4 channels, depth 12 / 2 channels) with every transition replayed from scratch on the real API and every observable result compared, plus non-destructive disconnection probes; and stateless exploration (<=2/3 deviations) of the final drops racing a blocked, timed or polling receive.",
+   E1NOTE + " Model graphs are explored completely up to a depth bound (reported); a state cap, if hit, is reported and makes exhaustive=false.", "explicit-state model search with full trace conformance replay on the implementation + controlled-scheduler exploration (E1)", "DESIGN.md §4 C03"),
  "C06": ("model_checking",
    "Stateless model checking (<=2 deviations incl. EINTR answers to epoll_wait) of sender tasks racing the selecting task with 2-3 members and a member added after the first select; plus scripted single-task histories (1..12/64 ready members, traffic queued before/after add, all size sequences up to length 2/3 for two members, bursts of 63..150 messages between waits, re-adding after closures) where a select that blocks while an event is pending is an exact deadlock.",
    E1NOTE, "controlled-scheduler stateless exploration with deviation bounding (E1) + bounded-exhaustive scripted histories", "DESIGN.md §4 C06"),
@@ -67,7 +67,7 @@ CHECKS = {
    E1NOTE, "controlled-scheduler stateless exploration (E1) + sequential process-level cases", "DESIGN.md §4 C08"),
  "C19": ("model_checking",
    "Explicit-state BFS over the reference model (ideal unbounded FIFO channels with counted handles, endpoints in transit, regions, a receiver set, channel creation plain and through a one-shot server); every transition is one program executed from scratch on the os, memfd and in-process builds with every observable result compared with the model (values, order, empty, disconnected, send failures; select results per member).",
-   TRUST + "the model graph is cut at max 2 (3) channels, depth 5 (8), 2 queued messages, 4 live handles (reported; exhaustive=false when cut); agreement between builds is via agreement with the same model.", "explicit-state model search with full trace conformance replay on three builds of the implementation", "DESIGN.md §4 C19"),
+   TRUST + "the model graph is explored completely up to depth 6 with <=2 channels (quick) / depth 7 with <=3 channels (thorough), 2 queued messages, 4 live handles; a state cap, if hit, is reported and makes exhaustive=false; agreement between builds is via agreement with the same model.", "explicit-state model search with full trace conformance replay on three builds of the implementation", "DESIGN.md §4 C19"),
  "C20": ("model_checking",
    "Stateless model checking (<=2 deviations, 3 for single-stream scenarios thorough; scheduling points before every system call/futex wait and after every transmission) of tasks that convert 1-2 receivers into streams, feed and consume them (block_on or a hand-written poll loop with a parking waker) against the real routing thread; oracle: each stream yields its channel's messages once, in order, then ends; a Pending poll is followed by a wake (else exact deadlock); streams do not influence one another.",
    E1NOTE, "controlled-scheduler stateless exploration with deviation bounding (E1)", "DESIGN.md §4 C20"),
@@ -93,6 +93,12 @@ def main():
       {"name": "E1", "path": "harness/src/sched.rs, harness/src/explore.rs, harness/src/props/e1.rs",
        "serves_properties": [p for p in props if p in CHECKS and CHECKS[p][0] == "model_checking"],
        "kind_free_text": "stateless controlled-scheduler exploration of the real code on the real kernel: one task runs at a time, scheduling points at intercepted system calls/futex waits, all schedules with <=B deviations (preemptions, timer firings, EINTR) enumerated by DFS; each execution in a fresh forked child; deadlock detected exactly"},
+      {"name": "E3", "path": "harness/src/pmodel.rs, harness/src/props/c02.rs (e3), harness/src/sched.rs (directed mode)",
+       "serves_properties": ["C02"],
+       "kind_free_text": "explicit-state search of an abstract packet-protocol model; impl-subset-of-model by stepping real system-call traces through it, model-subset-of-impl by replaying a covering set of model paths on the implementation under a directed scheduler"},
+      {"name": "model+conformance", "path": "harness/src/model.rs, harness/src/props/c03.rs, harness/src/props/c19.rs",
+       "serves_properties": ["C03", "C19"],
+       "kind_free_text": "explicit-state BFS over the reference model of ideal channels (canonical-state dedup); every transition replayed from scratch as a program on the real API (three builds for C19) with every observable result compared"},
       {"name": "E2", "path": "harness/src/props/mod.rs (sweep, sweep_batched), harness/src/interpose.rs",
        "serves_properties": [p for p in props if p in CHECKS and CHECKS[p][0] != "model_checking"],
        "kind_free_text": "bounded-exhaustive enumeration of inputs / histories / fault patterns / crash points; each case executes the public API in a forked child under the libc-boundary interposer (ledger, fake/real SO_SNDBUF, ENOBUFS plan, crash index)"}
